@@ -58,6 +58,9 @@ func C12(c *core.Ctx) {
 		n := checkSlotStore(c, "C-fanin/slot-store/"+e.fn, f, e.field)
 		c.Floor("C-fanin/slot-store/"+e.fn, n, 1)
 	}
+	// every index re-orderer gives the same output for every arrival order of a small batch
+	nre := checkArrivalOrderIndependence(c, "C-reorder")
+	c.Floor("C-reorder/consumers", nre, 7)
 	// ---- C-map
 	mrs := listMapRanges(c)
 	counts := map[string]int{}
@@ -436,10 +439,17 @@ func evalAggregateVariants(c *core.Ctx, reverse bool, feed []eval.Value, start, 
 }
 
 func harnessAggregateVariants(c *core.Ctx, reverse bool) (string, error) {
+	// the same replacement at the same position seen through overlapping features: ties on every numeric key
+	aaIn := func(feature string, residue int64) *eval.StructVal {
+		v := mkVariant(c, "aa", 7, 0, "P", "L")
+		v.F["Feature"] = eval.S(feature)
+		v.F["Residue"] = eval.K(residue)
+		return v
+	}
 	feed := []eval.Value{
 		mkAnno(c, "q1", 0, mkVariant(c, "ins", 3, 1, "", ""), mkVariant(c, "ins", 3, 2, "", ""), mkVariant(c, "ins", 3, 3, "", ""),
 			mkVariant(c, "del", 3, 2, "", ""), mkVariant(c, "nuc", 3, 0, "A", "T"), mkVariant(c, "nuc", 3, 0, "A", "G")),
-		mkAnno(c, "q2", 1, mkVariant(c, "ins", 3, 2, "", ""), mkVariant(c, "del", 3, 1, "", "")),
+		mkAnno(c, "q2", 1, mkVariant(c, "ins", 3, 2, "", ""), mkVariant(c, "del", 3, 1, "", ""), aaIn("geneB", 2), aaIn("geneA", 3), aaIn("geneC", 1)),
 	}
 	return evalAggregateVariants(c, reverse, feed, -1, -1, false, 0, "ref")
 }
